@@ -7,6 +7,7 @@ EXPLAINED = ('the code notifies registered sync waiters one after the other insi
 
 def run(cfg, tier, seed, V, RUNNER):
     if cfg.get('kind') == 'pipein': return run_pipein(cfg, tier, seed, V, RUNNER)
+    if cfg.get('kind') == 'pipe': return run_pipein(cfg, tier, seed, V, RUNNER, sub='pipe', exe='replay_pipe', name='pipe-replay')
     drv = os.path.join(V, 'driver')
     rc = subprocess.run(['sh', os.path.join(drv, 'build.sh')], stdout=subprocess.PIPE, stderr=subprocess.STDOUT, timeout=900)
     out = {'traces': 0, 'steps': 0, 'events': 0, 'skipped': 0, 'explained': 0, 'disagreements': [], 'stutters': 0}
@@ -49,21 +50,21 @@ def run(cfg, tier, seed, V, RUNNER):
     return out
 
 
-def run_pipein(cfg, tier, seed, V, RUNNER):
+def run_pipein(cfg, tier, seed, V, RUNNER, sub='pipein', exe='replay_pipein', name='pipein-replay'):
     """pipe_in layer: logs of the real crate replayed on the extracted PipeIn model (driver/pipein/replay_pipein.ml)"""
-    drv = os.path.join(V, 'driver', 'pipein')
+    drv = os.path.join(V, 'driver', sub)
     rc = subprocess.run(['sh', os.path.join(drv, 'build.sh')], stdout=subprocess.PIPE, stderr=subprocess.STDOUT, timeout=900)
     out = {'traces': 0, 'steps': 0, 'events': 0, 'skipped': 0, 'explained': 0, 'disagreements': [], 'stutters': 0}
-    replay = os.path.join(drv, '_build', 'replay_pipein')
+    replay = os.path.join(drv, '_build', exe)
     if rc.returncode != 0 or not os.path.exists(replay):
-        out['disagreements'].append({'name': 'pipein-driver-build', 'detail': 'extraction or driver build failed: ' + rc.stdout.decode('utf-8', 'replace')[-600:]})
+        out['disagreements'].append({'name': name + '-driver-build', 'detail': 'extraction or driver build failed: ' + rc.stdout.decode('utf-8', 'replace')[-600:]})
         return out
-    logroot = os.path.join(V, 'out', 'corrlogs_pipein')
+    logroot = os.path.join(V, 'out', 'corrlogs_' + sub)
     shutil.rmtree(logroot, ignore_errors=True)
     for pi, pr in enumerate(cfg['profiles']):
         count, scheds = pr[tier]
         d = os.path.join(logroot, '%d' % pi)
-        cmd = [RUNNER, 'run', '--seed', str(seed + 23), '--scheds', str(scheds), '--logdir', d, '--no-touch-yield', '--max-steps', '30000']
+        cmd = [RUNNER, 'run', '--seed', str(seed + 23), '--scheds', str(scheds), '--logdir', d, '--no-touch-yield', '--no-probe', '--max-steps', '30000']
         if pr['name'].startswith('progs:'): cmd += ['--progs', os.path.join(V, 'corpus', pr['name'][6:])]
         else: cmd += ['--profile', pr['name'], '--count', str(count)]
         subprocess.run(cmd, stdout=subprocess.DEVNULL, stderr=subprocess.DEVNULL, timeout=1200)
@@ -76,7 +77,7 @@ def run_pipein(cfg, tier, seed, V, RUNNER):
                     kv = dict(x.split('=') for x in f[1:] if '=' in x)
                     out['traces'] += int(kv.get('ok', 0)); out['steps'] += int(kv.get('model_steps', 0)); out['events'] += int(kv.get('events', 0)); out['skipped'] += int(kv.get('skipped', 0))
                 elif f[0] == 'DIVERGE' and len(f) >= 4:
-                    out['disagreements'].append({'name': 'pipein-replay', 'detail': 'program %s: %s (log %s)' % (f[2], f[3], f[1]), 'program': f[2], 'log': f[1]})
+                    out['disagreements'].append({'name': name, 'detail': 'program %s: %s (log %s)' % (f[2], f[3], f[1]), 'program': f[2], 'log': f[1]})
     keep = set(d.get('log') for d in out['disagreements'])
     for f in glob.glob(os.path.join(logroot, '*', '*.log')):
         if f not in keep: os.remove(f)
